@@ -175,7 +175,11 @@ def main():
 
     # ------------------------------------------------------------------ evidence
     n_ob, n_dis = len(real), len(proved)
-    level = 'proof' if (n_ob and n_ob == n_dis and not problems) else 'other'
+    try:
+        claimed = {c['property_id']: c['level_claimed']['category'] for c in json.load(open(os.path.join(VERIF, 'MANIFEST.json')))['checks']}.get(prop, 'other')
+    except Exception:
+        claimed = 'other'
+    level = 'proof' if (claimed == 'proof' and n_ob and n_ob == n_dis and not problems) else 'other'
     ev_total = sum(rep.get('evaluations', 0) for rep in reports)
     dn_total = sum(rep.get('distinct_nontrivial', 0) for rep in reports)
     samples = []
@@ -219,6 +223,9 @@ def main():
                 pass   # solver flake: keep the proved record
             else:
                 entries[r['name']] = dict(verdict='open', hash=r['hash'], answer=r['verdict'], props=props)
+        if not a.unit and not a.no_vc:
+            unit_names = {u.name for u in my_units}
+            for name in [n_ for n_ in ledger.d if n_.split(':', 1)[0] in unit_names and n_ not in by_name]: del ledger.d[name]     # obligations that no longer exist
         ledger.save(entries)
         print(f'ledger updated: {len(entries)} entries')
 
